@@ -12,7 +12,6 @@ import (
 	"time"
 
 	"github.com/twmb/franz-go/pkg/kadm"
-	"github.com/twmb/franz-go/pkg/kfake"
 	"github.com/twmb/franz-go/pkg/kgo"
 
 	"verifharness/internal/e2e"
@@ -368,12 +367,12 @@ func Run(plan Plan, watchdog, liveBound time.Duration) (res *Result) {
 		cons.Close()
 	}
 
-	// observed(t): partitions of t delivered by a poll that had returned before clock c
-	observedBefore := func(t string, c int64) map[int32]bool {
+	// partitions of t delivered by a poll that started after clock since and had returned before clock c
+	observedBefore := func(t string, since, c int64) map[int32]bool {
 		out := map[int32]bool{}
 		pmu.Lock()
 		for _, pl := range res.Polls {
-			if pl.E >= c {
+			if pl.E >= c || pl.S <= since {
 				continue
 			}
 			for _, r := range pl.Recs {
@@ -504,7 +503,7 @@ func Run(plan Plan, watchdog, liveBound time.Duration) (res *Result) {
 				}
 			}
 			before := len(m.cur)
-			ol.Changed = m.apply(st, nExisting, func(t string) map[int32]bool { return observedBefore(t, ol.Call) })
+			ol.Changed = m.apply(st, ol.Ret, nExisting, func(t string, since int64) map[int32]bool { return observedBefore(t, since, ol.Call) })
 			if m.regex && st.Kind != "purge-consuming" && st.Kind != "purge-client" {
 				ol.Qual += "+noop-in-regex-mode"
 			} else if ol.Changed {
@@ -625,5 +624,3 @@ func Run(plan Plan, watchdog, liveBound time.Duration) (res *Result) {
 	stopAll()
 	return res
 }
-
-var _ = kfake.NumBrokers
